@@ -1083,6 +1083,28 @@ static const char* get_builtin_fun_name(kind_t kind)
     return funNames[kind - ABS_F];
 }
 
+/** Prints the binder of a quantifier the way it is declared: "name : type" with the type in declaration syntax. */
+static std::ostream& print_binder(std::ostream& os, const symbol_t& symbol, bool old)
+{
+    auto type = symbol.get_type();
+    while (type.get_kind() == CONSTANT)  // binders are constant by construction
+        type = type.get(0);
+    os << symbol.get_name() << " : ";
+    switch (type.get_kind()) {
+    case LABEL: return os << type.get_label(0);  // a named type
+    case BOOL: return os << "bool";
+    case INT: return os << "int";
+    case RANGE:
+        if (type.get(0).get_kind() == INT) {
+            auto [lower, upper] = type.get_range();
+            lower.print(os << "int[", old) << ',';
+            return upper.print(os, old) << ']';
+        }
+        [[fallthrough]];
+    default: return os << type.str();
+    }
+}
+
 static inline std::ostream& embrace_strict(std::ostream& os, bool old, const expression_t& expr, int precedence)
 {
     if (precedence > expr.get_precedence())
@@ -1486,17 +1508,17 @@ std::ostream& expression_t::print(std::ostream& os, bool old) const
         break;
 
     case FORALL:
-        os << "forall(" << get(0).get_symbol().get_name() << ':' << get(0).get_symbol().get_type().str() << ") ";
+        print_binder(os << "forall (", get(0).get_symbol(), old) << ") ";
         get(1).print(os, old);
         break;
 
     case EXISTS:
-        os << "exists(" << get(0).get_symbol().get_name() << ':' << get(0).get_symbol().get_type().str() << ") ";
+        print_binder(os << "exists (", get(0).get_symbol(), old) << ") ";
         get(1).print(os, old);
         break;
 
     case SUM:
-        os << "sum(" << get(0).get_symbol().get_name() << ':' << get(0).get_symbol().get_type().str() << ") ";
+        print_binder(os << "sum (", get(0).get_symbol(), old) << ") ";
         get(1).print(os, old);
         break;
 
